@@ -1224,7 +1224,7 @@ func runAtomicWrite(prog *Prog, sc StaticCheck) *StaticResult {
 		return res
 	}
 	var createTemp, write, closeC, rename *ssa.Call
-	var direct []string
+	var direct, removes []string
 	for _, b := range fn.Blocks {
 		for _, in := range b.Instrs {
 			c, ok := in.(*ssa.Call)
@@ -1234,6 +1234,17 @@ func runAtomicWrite(prog *Prog, sc StaticCheck) *StaticResult {
 			switch c.Call.StaticCallee().String() {
 			case "os.WriteFile", "os.Create", "os.OpenFile", "io/ioutil.WriteFile":
 				direct = append(direct, fmt.Sprintf("%s at %s", c.Call.StaticCallee().String(), posOf(prog, c.Pos())))
+			case "os.Remove", "os.RemoveAll":
+				// only the temporary file may be removed: the argument is (*os.File).Name() of some file value
+				okArg := false
+				if len(c.Call.Args) == 1 {
+					if nc, ok := c.Call.Args[0].(*ssa.Call); ok && nc.Call.StaticCallee() != nil && nc.Call.StaticCallee().String() == "(*os.File).Name" {
+						okArg = true
+					}
+				}
+				if !okArg {
+					removes = append(removes, fmt.Sprintf("%s at %s", c.Call.StaticCallee().String(), posOf(prog, c.Pos())))
+				}
 			case "os.CreateTemp":
 				createTemp = c
 			case "(*os.File).Write", "(*os.File).WriteString":
@@ -1257,6 +1268,7 @@ func runAtomicWrite(prog *Prog, sc StaticCheck) *StaticResult {
 		}
 	}
 	check(len(direct) == 0, "never opens the destination for writing", fmt.Sprintf("%s writes in place: %s", sc.Args["func"], strings.Join(direct, ", ")))
+	check(len(removes) == 0, "removes nothing but its own temporary file", fmt.Sprintf("%s removes a file that is not its temporary file (the destination could vanish before the rename): %s", sc.Args["func"], strings.Join(removes, ", ")))
 	check(createTemp != nil && write != nil && closeC != nil, "writes a temporary file and closes it", sc.Args["func"]+" does not write and close a file from os.CreateTemp")
 	check(rename != nil, "renames the temporary file onto "+sc.Args["dest"], sc.Args["func"]+" does not os.Rename onto "+sc.Args["dest"])
 	if rename != nil && write != nil && closeC != nil {
